@@ -83,6 +83,7 @@ func propC04(c *Ctx) {
 	r := c.rep
 	r.Rule = "seed ops (MnemonicToSeed, with a freshness probe: the result is overwritten and the call repeated) on: ASCII, every script of the lists, empty arguments, keys beyond the 128-byte HMAC block, compatibility characters, reordering mark sequences, passphrases beginning with marks, non-mnemonic strings, invalid UTF-8, and the 25..35 non-starter boundary; compared with Spec.seed = Lean PBKDF2-HMAC-SHA512(utf8 NFKD m, \"mnemonic\"||utf8 NFKD p, 2048, 64) over the pinned Unicode 15 tables, and with the model. Outside the stream-safe class the result must equal PBKDF2 over x/text's own normal forms (known finding D4). Non-trivial = distinct ops."
 	eng := c.specSentence(int64(langVals[2]), c.randBytes(16))
+	c.officialSeeds()
 	// the pure functional PBKDF2 of the theorems, the fast Lean one and x/crypto's, on the same inputs
 	for k, tc := range []struct{ pw, salt, it, n int }{{0, 0, 1, 64}, {3, 8, 2, 64}, {128, 8, 3, 64}, {129, 200, 2, 100}, {64, 16, 2048, 64}, {300, 13, 5, 1}} {
 		pw, salt := c.randBytes(tc.pw), c.randBytes(tc.salt)
